@@ -42,6 +42,12 @@ def real_frames(rng):
     out = []
     for c, i, n in specs:
         out.append(frame(c, i, bytes(rng.randrange(256) for _ in range(n))))
+    # frames whose payload holds (ends with / starts with / is) a complete frame: every truncation, deletion ... of these leaves
+    # input that contains a well-formed frame without being one
+    inner = frame(0x05, 0x01, b"\x06\x01")
+    out.append(frame(0x04, 0x04, bytes(rng.randrange(256) for _ in range(5)) + inner))
+    out.append(frame(0x77, 0x02, inner + b"\x00\x00\x00"))
+    out.append(frame(0x05, 0x01, inner))
     return out
 
 
@@ -64,6 +70,14 @@ def corruptions(f, rng, thorough):
         p = rng.randrange(n)
         ln = rng.randrange(2, 9)
         yield f[:p] + bytes(rng.randrange(256) for _ in range(ln)) + f[p + ln:]
+    # a cut-off frame followed by a whole other frame; whole frames before / after; sync characters appended
+    other = frame(0x05, 0x00, b"\x06\x8a")
+    for k in sorted({1, 2, 5, 6, 7, n // 2, n - 3, n - 2, n - 1} & set(range(1, n))):
+        yield f[:k] + other
+    yield other + f
+    yield f + other
+    yield f + b"\xb5\x62"
+    yield f + b"\r\n"
     # appended bytes, doubled frame, swapped checksum
     yield f + b"\x00"
     yield f + f
@@ -179,6 +193,12 @@ def run(ctx):
                 yield ("c05_parse", {"f": bytes(g).hex()})
             yield ("c05_parse", {"f": f[:-1].hex()})
             yield ("c05_parse", {"f": (f + b"\x00").hex()})
+        # insertions whose size is a multiple of 65536 (a 16-bit length comparison must not wrap): before the checksum, after it, after the header
+        for g in (frame(0x01, 0x07, rng.randbytes(92)), frame(0x06, 0x00, b""), frame(0x05, 0x01, b"\x06\x01")):
+            for extra in (65536, 131072) if ctx.thorough else (65536,):
+                for at in (len(g) - 2, len(g), 6):
+                    yield ("c05_parse", {"f": (g[:at] + bytes(extra) + g[at:]).hex()})
+                yield ("c05_parse", {"f": (g[:len(g) - 2] + rng.randbytes(extra) + g[len(g) - 2:]).hex()})
 
     run_batch(ctx, MODULE, CFG, lenient(gen_long()), frames.OBSERVERS, sigfn, negfn, chunk=400)
     ctx.exhaustive = False
